@@ -636,6 +636,34 @@ class ShardCtx:
             self._w = None
 
 
+def _copy_file(src, dst):
+    """copy keeping holes: far-offset dat files are sparse (apparent size up to 32 GiB, a few KiB on disk)"""
+    st = os.lstat(src)
+    if os.path.islink(src):
+        os.symlink(os.readlink(src), dst)
+    elif st.st_size <= 8 << 20:
+        shutil.copyfile(src, dst)
+    elif st.st_blocks * 512 <= 64 << 20:
+        subprocess.run(["cp", "--sparse=always", src, dst], check=False)
+    else:
+        return False
+    return True
+
+
+def _copy_tree(src, dst):
+    for r, ds, fs in os.walk(src):
+        rel = os.path.relpath(r, src)
+        os.makedirs(os.path.join(dst, rel), exist_ok=True)
+        for d in list(ds):
+            if os.path.islink(os.path.join(r, d)):
+                os.symlink(os.readlink(os.path.join(r, d)), os.path.join(dst, rel, d))
+        for f in fs:
+            try:
+                _copy_file(os.path.join(r, f), os.path.join(dst, rel, f))
+            except OSError:
+                pass
+
+
 def save_replay(prop, v, files, commands):
     d = os.path.join(VERIF, "replays", prop)
     os.makedirs(d, exist_ok=True)
@@ -647,11 +675,10 @@ def save_replay(prop, v, files, commands):
         try:
             if os.path.isdir(f):
                 dst = os.path.join(rd, os.path.basename(f.rstrip("/")))
-                shutil.copytree(f, dst, symlinks=True)
+                _copy_tree(f, dst)
             else:
                 dst = os.path.join(rd, os.path.basename(f))
-                if os.path.getsize(f) <= 8 << 20:
-                    shutil.copyfile(f, dst)
+                _copy_file(f, dst)
             saved.append(os.path.basename(dst))
         except OSError:
             pass
